@@ -67,6 +67,7 @@ fn main() {
                 }
             };
             rt::sched();
+            rt::start_hang_watchdog();
             let rep = runner::run_prop(def, tier, seed, shard, nshards, &known, arg(&args, "--part"), scale);
             let mut meta = BTreeMap::new();
             meta.insert("rule", serde_json::json!(def.rule));
